@@ -32,3 +32,19 @@ Proof.
   - intros. apply string_limit_lemma. assumption.
   - intros. apply name_limit_lemma; assumption.
 Qed.
+
+(* ---- OutputOptions ---- *)
+Lemma inert_option_lemma mask o os : In o inert_options ->
+  format_opt (Z.lor mask o) os = format_opt mask os.
+Proof.
+  intros Hin. unfold format_opt, has_opt. rewrite Z.land_lor_distr_l.
+  replace (Z.land o Gen_C01.OptPretty) with 0%Z; [rewrite Z.lor_0_r; reflexivity|].
+  cbn [inert_options In] in Hin. destruct Hin as [<-|[<-|[<-|[<-|[]]]]]; reflexivity.
+Qed.
+Theorem options_lemma : forall L mask os, wf_list L os = true ->
+  scan_objects L (format_opt mask os) = Ok (map norm os, []) /\
+  (forall o, In o inert_options -> format_opt (Z.lor mask o) os = format_opt mask os).
+Proof.
+  intros L mask os Hw. split; [apply scan_objects_format_lemma; exact Hw|].
+  intros o Ho. apply inert_option_lemma. exact Ho.
+Qed.
